@@ -90,7 +90,73 @@ def fam_symmetric(tier, seed):
             yield {"radius": r, "size": size}
 
 
+from aotools.wfs import wfslib as W
+
+
+def py_round(x):
+    return int(round(x))
+
+
+def chk_selection(inp):
+    rng = numpy.random.default_rng(7)
+    masks = [pupil.circle(5, 12, (1.5, -2)), (rng.random((9, 12)) > 0.4).astype(float), pupil.circle(4, 8), numpy.triu(numpy.ones((10, 10)))]
+    for mask in masks:
+        for n in (1, 2, 3, 4):
+            if mask.shape[0] < n or mask.shape[1] < n:
+                continue
+            sx, sy = mask.shape[0] / float(n), mask.shape[1] / float(n)
+            prev = None
+            for thr in (0.0, 0.3, 0.5, 0.75, 1.0):
+                coords, fills = W.findActiveSubaps(n, mask, thr, returnFill=True)
+                only = W.findActiveSubaps(n, mask, thr)
+                want, wf = [], []
+                for x in range(n):
+                    for y in range(n):
+                        cell = mask[int(numpy.round(x * sx)):int(numpy.round((x + 1) * sx)), int(numpy.round(y * sy)):int(numpy.round((y + 1) * sy))]
+                        if cell.mean() >= thr:
+                            want.append([x * sx, y * sy]); wf.append(cell.mean())
+                if not (numpy.array_equal(numpy.asarray(coords).reshape(-1, 2), numpy.asarray(want).reshape(-1, 2)) and numpy.allclose(fills, wf)
+                        and numpy.array_equal(numpy.asarray(only).reshape(-1, 2), numpy.asarray(want).reshape(-1, 2))):
+                    return {"message": "findActiveSubaps(%d, mask %s, %g) is not exactly the cells whose mean mask value is >= threshold (row-major)" % (n, mask.shape, thr),
+                            "observed": numpy.asarray(coords).tolist(), "expected": want}
+                cur = set(map(tuple, numpy.asarray(coords).reshape(-1, 2).tolist()))
+                if prev is not None and not cur <= prev:
+                    return {"message": "selected set does not shrink monotonically with the threshold"}
+                prev = cur
+                if mask.shape[0] % n == 0 and mask.shape[1] % n == 0 and mask.shape[0] == mask.shape[1] and len(coords):
+                    ff = W.computeFillFactor(mask, numpy.asarray(coords), mask.shape[0] // n)
+                    if not numpy.allclose(ff, fills):
+                        return {"message": "fill factors differ from computeFillFactor on a mask whose size is a multiple of the sub-aperture count", "observed": numpy.asarray(ff).tolist(), "expected": numpy.asarray(fills).tolist()}
+
+
+def chk_fill(inp):
+    rng = numpy.random.default_rng(3)
+    mask = (rng.random((12, 10)) > 0.3).astype(float)
+    pos = numpy.array([[0., 0.], [2.5, 3.5], [7.2, 1.4], [8.0, 6.0]])
+    for sp in (2, 2.5, 3):
+        got = W.computeFillFactor(mask, pos, sp)
+        want = [mask[py_round(x):py_round(x + sp), py_round(y):py_round(y + sp)].mean() for x, y in pos]
+        if not numpy.allclose(got, want):
+            return {"message": "computeFillFactor is not the mean of mask[round(x):round(x+sp), round(y):round(y+sp)]", "observed": numpy.asarray(got).tolist(), "expected": want}
+
+
+def chk_scatter(inp):
+    rng = numpy.random.default_rng(5)
+    for mask in (pupil.circle(2, 4), (rng.random((5, 5)) > 0.5).astype(float), numpy.ones((3, 3)), numpy.zeros((3, 3))):
+        ns = int(mask.sum())
+        data = rng.normal(size=(3, 2, ns))
+        out = W.make_subaps_2d(data, mask)
+        if out.shape != (3, 2) + mask.shape:
+            return {"message": "make_subaps_2d shape", "observed": list(out.shape)}
+        back = out[:, :, mask == 1]
+        if not numpy.array_equal(back, data):
+            return {"message": "scattering the slopes into the 2-d map and reading back through the mask is not the identity", "observed": back.tolist(), "expected": data.tolist()}
+        if (out[:, :, mask != 1] != 0).any():
+            return {"message": "masked sub-apertures are not zero"}
+
+
 CLAUSES = {
+    "subaps.selection": (chk_selection, lambda t, s: [{}]), "subaps.fill": (chk_fill, lambda t, s: [{}]), "subaps.scatter": (chk_scatter, lambda t, s: [{}]),
     "circle.indicator": (chk_indicator, fam_indicator),
     "circle.nested": (chk_nested, fam_nested),
     "circle.translate": (chk_translate, fam_translate),
